@@ -6,7 +6,7 @@ from .. import oracles as orc
 from ..gen import J, JI
 
 PROP = "C02"
-HOSTILE = ('scale',)
+HOSTILE = ('scale', 'special')
 MONITORS = ("WF", "DENS")
 REQUIRED_MONITORS = ("DENS",)
 ANCHORS = [("measure.py", "GaussianMeasure.compute_lnZ"),
